@@ -1379,6 +1379,58 @@ pub fn run_c08_swarm(ctx: &mut Ctx) {
     );
     ctx.workers = saved;
 }
+/// C08 with slices of seconds: an overhead that grows with the slice (naps that are counted
+/// instead of timed, a polling interval that widens) stays inside the tolerance on short slices and
+/// shows on long ones. Few cases, run side by side.
+pub fn run_c08_long(ctx: &mut Ctx) {
+    let t = ctx.tier;
+    ctx.max_shrink_iters = 0;
+    let saved = ctx.workers;
+    ctx.workers = 8;
+    run_prop(
+        ctx,
+        "slices_of_seconds_answered_on_time",
+        || (gamelike_walk_strategy(30), 0u16..2000, 0u8..3),
+        t.pick(8, 64),
+        |(walk, extra, form), st| {
+            let ps = PosSpec { walk: walk.clone(), form: 1 };
+            let Some((ptext, p)) = position_text(&ps) else { return Ok(()) };
+            if p.legal_moves().is_empty() {
+                return Ok(());
+            }
+            let slice = 6_000 + *extra as u64;
+            let go = match form {
+                0 => format!("go wtime {} btime {} movestogo 1", slice * 10 / 8 + 100, slice * 10 / 8 + 100),
+                1 => format!("go wtime {} btime {} movestogo 4", slice * 4 * 10 / 8 + 100, slice * 4 * 10 / 8 + 100),
+                _ => format!("go wtime {} btime {}", slice * 30 * 10 / 8 + 100, slice * 30 * 10 / 8 + 100),
+            };
+            let plan = plan_ms(&go, p.stm == Color::White);
+            st.eval();
+            st.sample(|| json!({"position": ptext, "go": go, "follow": null, "options": 0}));
+            C08_OPTIONS.with(|x| x.set(0));
+            let d = c08_once(&ptext, &p, &go, plan, None, st)?;
+            latency_rule(d, plan, false, || c08_once(&ptext, &p, &go, plan, None, &mut Stats::new())).map_err(|m| format!("{} [{} ; {}]", m, ptext, go))?;
+            st.nontrivial(fp(&(&ptext, &go)));
+            Ok(())
+        },
+        |(walk, extra, form)| {
+            let ps = PosSpec { walk: walk.clone(), form: 1 };
+            match position_text(&ps) {
+                Some((ptext, _)) => {
+                    let slice = 6_000 + *extra as u64;
+                    let go = match form {
+                        0 => format!("go wtime {} btime {} movestogo 1", slice * 10 / 8 + 100, slice * 10 / 8 + 100),
+                        1 => format!("go wtime {} btime {} movestogo 4", slice * 4 * 10 / 8 + 100, slice * 4 * 10 / 8 + 100),
+                        _ => format!("go wtime {} btime {}", slice * 30 * 10 / 8 + 100, slice * 30 * 10 / 8 + 100),
+                    };
+                    json!({"position": ptext, "go": go, "follow": null, "options": 0})
+                }
+                None => json!({"position": null}),
+            }
+        },
+    );
+    ctx.workers = saved;
+}
 pub fn replay_c08(case: &Value) -> CaseResult {
     let ptext = case.get("position").and_then(|x| x.as_str()).ok_or("no position")?;
     let go = case.get("go").and_then(|x| x.as_str()).ok_or("no go")?;
